@@ -212,6 +212,20 @@ def truth(heapops, heap, v: Val):
             if dd.mapping_delegate:
                 inner = heapops.read_field(heap, v, dd.mapping_delegate)
                 return truth(heapops, heap, inner)
+            if dd.truthy and dd.truthy.startswith("fields:"):
+                # __bool__/__len__ defined by the class: an uninterpreted function of the current values of the named
+                # fields (nothing is assumed about it beyond being a function of that state)
+                args = []
+                for fname in dd.truthy[7:].split(","):
+                    fv = heapops.read_field(heap, v, fname.strip())
+                    if isinstance(fv.t, TList):
+                        args.append(heapops.list_seq(heap, fv))
+                    elif isinstance(fv.t, TDict):
+                        args.append(heapops.dict_dom(heap, fv))
+                    else:
+                        args += fv.terms()
+                f = z3.Function(f"Truthy_{dd.short}", *[a.sort() for a in args], z3.BoolSort())
+                return f(*args)
             if dd.truthy:
                 raise Unsupported(f"truthiness of {t} via {dd.truthy}")
         return z3.BoolVal(True)
@@ -257,7 +271,7 @@ def seq_rev(seq):
     so = seq.sort()
     key = ("rev", so.sexpr())
     if key not in _seq_fns:
-        f = z3.Function(f"SeqRev_{len(_seq_fns)}", so, so)
+        f = z3.Function(f"SeqRev<{so.sexpr()}>", so, so)
         _seq_fns[key] = f
         s_ = z3.Const("s!rev", so)
         i = z3.Int("i!rev")
@@ -279,7 +293,7 @@ def seq_map_field(field_arr, seq, out_sort):
     key = ("mapf", so.sexpr(), field_arr.sort().sexpr())
     if key not in _seq_fns:
         rs = z3.SeqSort(out_sort)
-        f = z3.Function(f"SeqMapF_{len(_seq_fns)}", field_arr.sort(), so, rs)
+        f = z3.Function(f"SeqMapF<{so.sexpr()},{field_arr.sort().sexpr()}>", field_arr.sort(), so, rs)
         _seq_fns[key] = f
         a = z3.Const("a!mapf", field_arr.sort())
         s_ = z3.Const("s!mapf", so)
@@ -290,3 +304,10 @@ def seq_map_field(field_arr, seq, out_sort):
                       patterns=[f(a, s_)[i]]),
         ]
     return _seq_fns[key](field_arr, seq)
+
+
+def reset_per_function():
+    """Per-function axiom tables start empty, so that the problem text of a function does not depend on what was verified before it."""
+    _seq_fns.clear()
+    SEQ_AXIOMS.clear()
+    USED.clear()
